@@ -82,6 +82,7 @@ struct GraphParams
 {
     long maxFiles = 6;
     bool avoidIndirectUnits = false; // avoidance switch for the known "imports reachable only through local intermediates" defects
+    bool encapsulationHeavy = false; // up to three imported components per file, mostly encapsulated below an imported component
     bool unitsHeavy = false; // graphs made mostly of units: more files, chains of imported units, ordinary units with several imported children
 };
 
